@@ -252,6 +252,14 @@ def pynorm_leg(ctx: Ctx, depth: int):
     ctx.sample({"python_fragment": cases[len(cases) // 2]["text"]})
 
 
+def quoted_leg(ctx: Ctx, maxlen: int):
+    """'taken verbatim ... so any column name can be referenced' at the level of the parsed formula: token strings over quoted names that
+    print like literals (`0`, `1`, {0}) next to the literals themselves, parsed by the real parser and compared with Wilkinson.tla."""
+    from . import c01
+
+    c01._enumerated(ctx, maxlen, "quoted", "default")
+
+
 def run(ctx: Ctx) -> None:
     ctx.rule = ("every character string over the model alphabet up to the bound (replay: token-for-token equality with tokenize()); "
                 "every call expression of MC_PyNorm (identifiers, quoted names, string literals that overlap textually) x 4 spellings; "
@@ -264,12 +272,14 @@ def run(ctx: Ctx) -> None:
         enumerated(ctx, 4, "c20")
         trace_leg(ctx, 600)
         pynorm_leg(ctx, 1)
+        quoted_leg(ctx, 4)
     else:
         enumerated(ctx, 5, "c16")
         enumerated(ctx, 4, "c27")
         enumerated(ctx, 6, "c8", ws=False)
         trace_leg(ctx, 8000)
         pynorm_leg(ctx, 2)
+        quoted_leg(ctx, 5)
     ctx.exhaustive = True
 
 
